@@ -206,12 +206,13 @@ impl AcquisitionLedger {
         }
     }
 
-    /// Total adjusted cost across all lots with remaining shares.
+    /// Total adjusted cost of the shares still held (each lot's cost in proportion to
+    /// the part of it that has not been disposed of).
     pub fn total_adjusted_cost(&self) -> Decimal {
         self.lots
             .iter()
             .filter(|lot| lot.held_for_adjustment() > Decimal::ZERO)
-            .map(|lot| lot.adjusted_cost())
+            .map(|lot| lot.adjusted_unit_cost() * lot.held_for_adjustment())
             .sum()
     }
 
